@@ -375,6 +375,7 @@ var exception_throw(var obj, const char* fmt, var args) {
   print_to_with(e->msg, 0, fmt, args);
   
   if (Exception_Len(e) >= 1) {
+    CELLO_VERIF_YIELD(7);
     longjmp(*Exception_Buffer(e), 1);
   } else {
     Exception_Error(e);
@@ -404,6 +405,7 @@ var exception_catch(var args) {
   
   /* No matches found. Propagate to outward block */
   if (e->depth >= 1) {
+    CELLO_VERIF_YIELD(8);
     longjmp(*Exception_Buffer(e), 1);
   } else {
     Exception_Error(e);
